@@ -169,9 +169,17 @@ class SymNum:
             return NotImplemented
         return type(self)._mk(f(oe, self.e), o, self)
 
+    np_kind = None      # 'float32' for values standing for numpy float32 scalars (see NPFloat32)
+
     @staticmethod
     def _mk(e, a=None, b=None):
+        # numpy promotion: float32 combined with a Python number or another float32 stays float32
+        if getattr(a, "np_kind", None) == "float32" or getattr(b, "np_kind", None) == "float32":
+            return NPFloat32(e)
         return SymNum(e)
+
+    def _same(self, e):
+        return NPFloat32(e) if self.np_kind == "float32" else SymNum(e)
 
     def __add__(self, o):
         if _isinf(o):
@@ -206,7 +214,7 @@ class SymNum:
         return self._rb(o, lambda a, b: a / b)
 
     def __neg__(self):
-        return SymNum(-self.e)
+        return self._same(-self.e)
 
     def __pos__(self):
         return self
@@ -214,8 +222,8 @@ class SymNum:
     def __abs__(self):
         if ABS_FORKS[0]:
             # sign-resolved absolute value: the path forks on the sign (keeps later queries free of if-then-else terms)
-            return self if Ctx.cur.decide(self.e >= 0) else SymNum(-self.e)
-        return SymNum(z3.If(self.e >= 0, self.e, -self.e))
+            return self if Ctx.cur.decide(self.e >= 0) else self._same(-self.e)
+        return self._same(z3.If(self.e >= 0, self.e, -self.e))
 
     def __pow__(self, o):
         if isinstance(o, numbers.Integral) and 0 <= int(o) <= 6:
@@ -281,6 +289,14 @@ class SymNum:
 
     def __repr__(self):
         return f"Sym({self.e})"
+
+
+class NPFloat32(SymNum):
+    """A symbolic number that stands for a numpy float32 scalar: same real value, but it carries the type
+    tag that decides what json.dump / float-only consumers accept.  float() returns a plain SymNum."""
+    __slots__ = ()
+    np_kind = "float32"
+    __hash__ = SymNum.__hash__
 
 
 ABS_FORKS = [False]
@@ -447,7 +463,7 @@ def _s_int(x=0, *a):
 
 def _s_float(x=0.0):
     if isinstance(x, SymNum):
-        return x
+        return SymNum(x.e) if x.np_kind else x
     if isinstance(x, SymBool):
         return SymNum(z3.If(x.e, _rv(1), _rv(0)))
     return _bi.float(x)
